@@ -284,11 +284,13 @@ def _progress(ctx, path, pending, upd) -> bool:
 
 def _loop_shrinks(ctx, loop, pending) -> bool:
     from ..effects import storage_roots
+    from ..phases import aliases_at
+    al = aliases_at(ctx, loop)
     for n in ast.walk(loop):
         if isinstance(n, ast.Call) and isinstance(n.func, ast.Attribute) and n.func.attr in ('pop', 'popleft', 'remove') \
-                and pending in storage_roots(n.func.value, {}):
+                and pending in storage_roots(n.func.value, al):
             return True
-        if isinstance(n, ast.AugAssign) and isinstance(n.op, ast.Sub) and pending in storage_roots(n.target, {}):
+        if isinstance(n, ast.AugAssign) and isinstance(n.op, ast.Sub) and pending in storage_roots(n.target, al):
             return True
     return False
 
